@@ -28,7 +28,8 @@ def norm(s):
 
 def post(C, fname, label, outs, log):
     lay = C.lay
-    res = {'exits': [], 'wbuf_writes': sorted({x[1] for x in log if x[0] == 'wbuf-write'})}
+    res = {'exits': [], 'wbuf_writes': sorted({x[1] for x in log if x[0] == 'wbuf-write'}),
+           'wcount': [tuple(x[1:]) for x in log if x[0] == 'wcount']}
     for (st, ret) in outs:
         S = st.store
         e = {'path': ['%s:%d:%s' % p if p[1] else p[2] for p in st.pathlist()][-8:]}
@@ -53,7 +54,14 @@ def post(C, fname, label, outs, log):
             e['werr_set'] = bool(c is not None and isinstance(c[2], Int) and S.entails_ge0(c[2].a.sub(1)))
             o, sz = lay.writer['buffer_used']
             c = (st.cells('W') or {}).get(((o, ()), sz))
-            e['counter'] = norm(repr(c[2])) if c is not None else None
+            cv = c[2] if c is not None else None
+            if isinstance(cv, Int):
+                sg = cv.a.single()
+                info = st.syminfo.get(sg[0]) if sg and sg[1] == 1 and cv.a.c == 0 else None
+                if info is not None and info.defn and info.defn[0] == 'addw':
+                    # modular sum whose overflow could not be excluded (the counter is unconstrained here): compare by definition
+                    cv = Int(cv.w, info.defn[1].add(info.defn[2]))
+            e['counter'] = norm(repr(cv)) if cv is not None else None
         res['exits'].append(e)
     return res
 
@@ -141,9 +149,18 @@ def run(rep, tier):
                            'C09 %s can return %r although a writer error is latched (%s)' % (r['fn'], e['ret'], tag), 'path:\n  ' + '\n  '.join(e['path']))
                     rep.ob(e.get('werr_set', False), '%s:LATCH-FLAG' % r['fn'],
                            'C09 %s can leave with the writer error flag cleared (%s)' % (r['fn'], tag), 'path:\n  ' + '\n  '.join(e['path']))
-                    rep.ob(e['counter'] in okforms.get(r['fn'], set()), '%s:LATCH-COUNT' % r['fn'],
-                           'C09 %s: counter after a failed write is %s, which no successful path produces (%s)' % (r['fn'], e['counter'], sorted(okforms.get(r['fn'], ()))[:6]),
-                           'the counter must keep counting exactly as in the error-free case', sample={'fn': r['fn'], 'counter_after_failed_write': e['counter']})
+                nw = 0
+                for (ok, loc, before, bsize, after, wl) in r['extra']['wcount']:
+                    nw += 1
+                    rep.ob(ok, '_write:LATCH-COUNT', 'C09 counter after a failed write: _write called at %s from %s [%s] leaves the counter at %s instead of %s + %s (%s)' % (
+                        loc, r['fn'], r['label'], after, before, bsize, tag),
+                        'the counter must keep counting exactly as in the error-free case: every _write adds data->bsize whatever the error state',
+                        sample={'fn': r['fn'], 'entry': r['label'], '_write_at': loc, 'counter_before': before, 'added': bsize, 'counter_after': after})
+                need(nw >= 1 or r['fn'] == 'binson_parser_to_writer', 'C09: no _write call observed in %s [%s]' % (r['fn'], r['label']))
+            # whether _write is called at all must not depend on the error state: the taint clause of C04 (control dependence)
+            from props.c04 import taint_clause
+            wmod = irload.load([x for x in raws if 'binson_writer' in x][0])
+            rep.coverage['taint'] = taint_clause(rep, wmod)
             rep.coverage.setdefault('entries', []).extend('%s[%s] %s' % (r['fn'], r['label'], tag) for r in results + wres)
     rep.coverage.update({
         'rule': 'abstract interpretation from the disjunct error_flags != NONE with every other field unconstrained; plus resolved-IR rule on stores to error_flags',
